@@ -324,7 +324,11 @@ func genMut(r *hx.Rng, exotic bool) *Op {
 			}
 		case 24:
 			if exotic && r.Intn(2) == 0 {
-				return &Op{K: "GetCommitted", A: a, Key: pickKey(r, a)}
+				k := pickKey(r, a)
+				for k == 900 { // GetCommittedState takes a 32-byte hash; the FT key string is not one (BytesToHash would pad it into another slot)
+					k = pickKey(r, a)
+				}
+				return &Op{K: "GetCommitted", A: a, Key: k}
 			}
 			if r.Intn(4) == 0 {
 				return &Op{K: "SetFT", A: a, N: uint64(r.Intn(3) * 9)}
